@@ -75,6 +75,8 @@ class Agg:
                     self.violations.append(res)
             else:
                 self.foreign[v['code'] + '->' + '/'.join(v.get('props', []))] += 1
+                if os.environ.get('VERIF_DEBUG') and len(self.harness) == 0:
+                    print('FOREIGN', i, json.dumps(v, default=repr)[:700], flush=True)
         elif len(self.samples) < 3 and res.get('nontrivial'):
             self.samples.append({'run': i, 'seed': res.get('seed'), 'hashseed': res.get('hashseed'),
                                  'config': res.get('config'), 'ops': res.get('ops')})
